@@ -351,6 +351,9 @@ func runC15(c *mon.Ctx) {
 		r := k.Rng
 		f, info := fontgen.Font(r, fontgen.Opts{MinGlyphs: 4, MaxGlyphs: 30, Layout: "subset", Plain: true, CMap: []string{"4", "12", "both", "mac"}[r.IntN(4)]})
 		k.Class("layout:cmap=" + info.CMap)
+		if k.Index%4 == 3 {
+			f = readBack(k, f)
+		}
 		if len(info.CodeToGID) == 0 {
 			return
 		}
